@@ -24,7 +24,8 @@ REQUIRED = ["faithful_checked/generic", "faithful_checked/wl", "faithful_checked
             "nauty_permutations_checked", "signature_repeat_checked", "soundness_groups_checked",
             "soundness_pairs_isomorphism_checked", "symmetric_graphs_checked", "value_objects_checked",
             "synrule_checked", "synrule_from_gml_checked", "tuple_order_graphs_checked", "nauty_distinct_classes_separated",
-            "presentations_with_other_numeric_types", "synrule_same_sides_other_mapping_checked", "two_order_complete_graphs_checked", "cross_process_probes"]
+            "presentations_with_other_numeric_types", "synrule_same_sides_other_mapping_checked", "two_order_complete_graphs_checked", "cross_process_probes",
+            "synrule_without_canon_checked", "fresh_vs_startup_canonicaliser_checked"]
 ASSUMPTIONS = [
     "covered attributes: element, charge, aromatic, hcount on nodes; order, standard_order on edges (the default keys)",
     "standard_order is a function of order in every generated graph (as in ITS graphs); independent variation is outside the data model",
@@ -256,6 +257,16 @@ def check_synrule(ctx):
             if not ok:
                 ctx.violation("synrule", {"rid": d.get("R-id")}, "equal SynRules whose fragments are not isomorphic")
         seen[k] = r1
+    # rules built with canon=False carry no signature: two different rules must not compare equal for lack of one
+    if ctx.shard == 0:
+        from synkit.IO.chem_converter import rsmi_to_its
+        ra_ = SynRule(rsmi_to_its("[CH3:1][Cl:2].[OH-:3]>>[CH3:1][OH:3].[Cl-:2]"), canon=False)
+        rb_ = SynRule(rsmi_to_its("[CH2:1]=[CH2:2].[BrH:3]>>[CH3:1][CH2:2][Br:3]"), canon=False)
+        ctx.count("synrule_without_canon_checked")
+        if ra_ == rb_ or len({ra_, rb_}) != 2:
+            ctx.violation("synrule", {"canon": False}, "SynRule(canon=False): two different rules compare equal / collapse in a set")
+        if not (ra_ == ra_):
+            ctx.violation("synrule", {"canon": False}, "SynRule(canon=False): a rule does not equal itself")
     # same sides, different atom correspondence: not the same rule
     if ctx.shard == 0:
         from synkit.IO.chem_converter import rsmi_to_its
